@@ -51,6 +51,8 @@ theorem runMigration_shape (cfg : Cfg) (env : Env) (last : SV) (i : Nat) (s : Ru
   split
   · exact .stop _ _ [] rfl rfl rfl (by simp) (by simp [callIdxs])
   split
+  · exact .stop _ _ [] rfl rfl rfl (by simp) (by simp [callIdxs])
+  split
   · exact .stop _ _ [.before i (s.disk.ist i)] rfl rfl rfl (by simp [Quiet]) (by simp [callIdxs])
   split
   · exact .stop _ _ [.before i (s.disk.ist i)] rfl rfl rfl (by simp [Quiet]) (by simp [callIdxs])
@@ -381,6 +383,9 @@ theorem start_cases (cfg : Cfg) (d : Disk) (st : Start) :
     (newRunner cfg st.reg d = .ok ∧ st.env.crashAt ≠ 0 ∧ st.env.failAt ≠ 1 ∧
       ∃ s, RunQ cfg st.env st.reg.target d.cur d s ∧ (start cfg d st).1 = s.disk ∧ (start cfg d st).2.1 = s.log) := by
   unfold start
+  by_cases hmr : st.env.metaReadFails = true
+  · left; simp [hmr]
+  simp only [hmr, Bool.false_eq_true, if_false]
   cases hn : newRunner cfg st.reg d with
   | optOut => exact .inl ⟨rfl, rfl⟩
   | downgrade => exact .inl ⟨rfl, rfl⟩
@@ -556,6 +561,7 @@ structure Env.Undisturbed (env : Env) : Prop where
   noCancel : 200 ≤ env.cancelAt
   noCrash : 200 ≤ env.crashAt
   noFail : env.failAt = 0
+  noReadFail : ∀ i, env.istReadFails i = false
 
 def applyAll (last : SV) (l : List Nat) (s : RunSt) : RunSt :=
   l.foldl (fun s i =>
@@ -565,13 +571,13 @@ def applyAll (last : SV) (l : List Nat) (s : RunSt) : RunSt :=
 
 theorem runMigration_clean (cfg : Cfg) (env : Env) (last : SV) (i : Nat) (s : RunSt)
     (hb : env.beh i = ⟨false, none, .none⟩) (hc : s.tick + 3 ≤ env.cancelAt) (hd : s.tick + 3 ≤ env.crashAt)
-    (hf : env.failAt = 0) :
+    (hf : env.failAt = 0) (hr : env.istReadFails i = false) :
     runMigration cfg env last i s = (applyAll last [i] s, none) := by
   have h1 : ¬ env.crashAt ≤ s.tick := by omega
   have h2 : ¬ env.crashAt ≤ s.tick + 1 := by omega
   have h3 : ¬ env.crashAt ≤ s.tick + 1 + 1 := by omega
   have h4 : ¬ env.cancelAt ≤ s.tick + 1 + 1 := by omega
-  simp [runMigration, applyAll, RunSt.dead, RunSt.cancelled, RunSt.tickEv, RunSt.writeFails, hf, hb, h1, h2, h3, h4]
+  simp [runMigration, applyAll, RunSt.dead, RunSt.cancelled, RunSt.tickEv, RunSt.writeFails, hf, hb, hr, h1, h2, h3, h4]
 
 theorem applyAll_tick (last : SV) (l : List Nat) (s : RunSt) : (applyAll last l s).tick = s.tick + 3 * l.length := by
   induction l generalizing s with
@@ -581,7 +587,7 @@ theorem applyAll_tick (last : SV) (l : List Nat) (s : RunSt) : (applyAll last l 
     rw [this, ih]; simp [applyAll]; omega
 
 theorem runLoop_clean (cfg : Cfg) (env : Env) (last : SV) (hb : ∀ i, env.beh i = ⟨false, none, .none⟩)
-    (hf : env.failAt = 0) :
+    (hf : env.failAt = 0) (hr : ∀ i, env.istReadFails i = false) :
     ∀ (l : List Nat) (s : RunSt), s.tick + 3 * l.length < env.cancelAt → s.tick + 3 * l.length < env.crashAt →
     runLoop cfg env last l s = (applyAll last l s, .ok) := by
   intro l
@@ -597,7 +603,7 @@ theorem runLoop_clean (cfg : Cfg) (env : Env) (last : SV) (hb : ∀ i, env.beh i
     have h1 : ¬ env.crashAt ≤ s.tick := by omega
     have h2 : ¬ env.cancelAt ≤ s.tick := by omega
     simp only [runLoop, RunSt.dead, RunSt.cancelled, h1, h2, decide_false, Bool.false_eq_true, if_false]
-    rw [runMigration_clean cfg env last a s (hb a) (by omega) (by omega) hf]
+    rw [runMigration_clean cfg env last a s (hb a) (by omega) (by omega) hf (hr a)]
     simp only []
     have ht : (applyAll last [a] s).tick = s.tick + 3 := by simp [applyAll]
     rw [ih _ (by rw [ht]; omega) (by rw [ht]; omega)]
@@ -671,7 +677,7 @@ theorem run_undisturbed (cfg : Cfg) (reg : Registry) (env : Env) (d : Disk) (hu 
       exact Nat.le_trans (List.length_filter_le _ _) (by simp)
     have := hu.noCancel
     have := hu.noCrash
-    rw [runLoop_clean cfg env reg.target hu.beh hu.noFail _ _ (by simp; omega) (by simp; omega)]
+    rw [runLoop_clean cfg env reg.target hu.beh hu.noFail hu.noReadFail _ _ (by simp; omega) (by simp; omega)]
     have hl : ∀ i ∈ SV.iter (SV.diff reg.target d.metaD.cur), i < 64 := fun i hi => SV.has_lt ((SV.mem_iter _ _).mp hi)
     refine ⟨rfl, ?_, ?_⟩
     · rw [applyAll_md _ _ _ rfl]
@@ -928,6 +934,9 @@ theorem start_tokens (cfg : Cfg) (d : Disk) (st : Start) :
     (∀ j, Event.apply j ∉ (start cfg d st).2.1 → (∀ t, Event.save j t ∉ (start cfg d st).2.1) →
       (start cfg d st).1.ist j = d.ist j) := by
   unfold start
+  by_cases hmr : st.env.metaReadFails = true
+  · simp [hmr]
+  simp only [hmr, Bool.false_eq_true, if_false]
   cases hn : newRunner cfg st.reg d with
   | optOut => exact ⟨fun _ _ h => (List.not_mem_nil h).elim, fun _ h => (List.not_mem_nil h).elim, fun _ _ h => (List.not_mem_nil h).elim, fun _ _ _ => rfl⟩
   | downgrade => exact ⟨fun _ _ h => (List.not_mem_nil h).elim, fun _ h => (List.not_mem_nil h).elim, fun _ _ h => (List.not_mem_nil h).elim, fun _ _ _ => rfl⟩
